@@ -40,6 +40,7 @@ PROPS = {
     "C07": engine_prop("TestC07"),
     "C08": engine_prop("TestC08"),
     "C09": engine_prop("TestC09"),
+    "C16": engine_prop("TestC16", quick=500, thorough=30000),
     "C11": engine_prop("TestC11"),
     "C01": {
         "level": "exploration",
